@@ -746,7 +746,16 @@ func TestVerif_C02(t *testing.T) {
 				jobs = append(jobs, job{h, vcAPIRequest})
 			}
 		}
-		ruleExtra = fmt.Sprintf("quick: alphabet %v to depth %d through Store.Execute/Query; through Store.Request to depth 2 and, at depth 3, the histories whose last step contains a read", alpha, depth)
+		// the deposed-leader windows need a write before and reads after; two reads after
+		// it (is the second one still protected when the first one is stuck?) is depth 4
+		for _, p := range []string{"Pl", "Pd"} {
+			for _, r1 := range []string{"L", "S", "Lo", "So"} {
+				for _, r2 := range []string{"L", "S", "Lo", "So"} {
+					jobs = append(jobs, job{[]string{"W", p, r1, r2}, vcAPIQuery}, job{[]string{"W", p, r1, r2}, vcAPIRequest})
+				}
+			}
+		}
+		ruleExtra = fmt.Sprintf("quick: alphabet %v to depth %d through Store.Execute/Query; through Store.Request to depth 2 and, at depth 3, the histories whose last step contains a read; plus the 32 depth-4 histories [W, Pl|Pd, r1, r2] with r1, r2 in {L, S, Lo, So} through both", alpha, depth)
 	}
 	if rp := kit.Replay(); rp != nil {
 		var x c02Replay
@@ -948,7 +957,5 @@ func TestVerif_C02(t *testing.T) {
 	r.Set("histories", len(jobs))
 	r.Set("scripted_client_operations", nOps)
 	t.Logf("operations without an answer by the end of their history: %d; clusters discarded: %d (close hung: %d)", nPending, nRebuilt, nWedged)
-	if nWedged > 0 {
-		r.Note("%d runs were abandoned and repeated on a fresh cluster because Store.Close(true) of a crashed node did not return within 15 s (hashicorp/raft v1.7.3 pipeline-replication goroutine deadlock, see vcCluster.Crash); not a C02 matter", nWedged)
-	}
+	r.Note("A run in which Store.Close(true) of a node being crashed does not return within 15 s (hashicorp/raft v1.7.3 pipelined-replication goroutine deadlock, see vcCluster.Crash; a liveness defect of the dependency, not a C02 matter) is abandoned and repeated on a fresh cluster; the log of the part says how many.")
 }
